@@ -14,7 +14,7 @@ RULE = ('1-4 line-number programs per .debug_line (version 2-5 x DWARF32/64 x ad
         'tables = model; rows = reference state machine transcribed from DWARF v5 6.2.5; decode extent = declared extent. Non-trivial: '
         'a sequence with >=5 rows from >=3 opcode classes, or non-default header parameters (opcode_base != 13, max_ops > 1, '
         'min_inst > 1). Distinct by SHA-1 of .debug_line + .debug_info.')
-N = {'quick': 2500, 'thorough': 150000}
+N = {'quick': 2500, 'thorough': 80000}
 ASSUMPTIONS = ['header_length is exact (no vendor padding between header and opcodes); program format/address size equal those of the referencing CU',
                'every sequence ends with DW_LNE_end_sequence; addresses stay below 2^63; rows are compared as unbounded integers, and the line register '
                'is not compared in programs where the reference machine drives it negative (counted as out-of-domain)',
